@@ -64,8 +64,16 @@ public:
     std::string getSortSymName(SSymRef ssr) const { return ssa[ssr].name; }
     std::string getSortSymName(SRef sr) const { return getSortSymName(getSortSym(sr)); }
     unsigned int getSortSymSize(SSymRef ssr) const { return ssa[ssr].arity; }
+    // The name as it has to be written in SMT-LIB: quoted when it is not a simple symbol
+    static std::string protectSortName(std::string name) {
+        bool const quoted = name.size() >= 2 and name.front() == '|' and name.back() == '|';
+        bool const simple = not name.empty() and not (name[0] >= '0' and name[0] <= '9') and
+                            name.find_first_not_of("ABCDEFGHIJKLMNOPQRSTUVWXYZabcdefghijklmnopqrstuvwxyz"
+                                                   "0123456789~!@$%^&*_-+=<>.?/") == std::string::npos;
+        return (quoted or simple) ? name : '|' + name + '|';
+    }
     std::string sortToString(SRef sr) const {
-        std::string name = getSortSymName(sr);
+        std::string name = protectSortName(getSortSymName(sr));
         if (sa[sr].getSize() > 0) {
             name = "(" + name + " ";
             for (unsigned i = 0; i < sa[sr].getSize(); i++) {
